@@ -176,7 +176,7 @@ def _parse(out):
     r = TLCResult()
     r.stdout = out
     in_err = False
-    for line in out.splitlines():
+    for line in _join_wrapped(out.splitlines()):
         m = _TAGGED.match(line)
         if m:
             try:
@@ -224,6 +224,53 @@ def _parse(out):
             od, og = r.coverage.get(name, (0, 0))
             r.coverage[name] = (od + d, og + g)
     return r
+
+
+def _join_wrapped(lines):
+    """TLC pretty-prints long tuples over several lines (`<< "TAG",` / continuation lines / `... >>`): join them back."""
+    out, buf, depth = [], None, 0
+    for line in lines:
+        if buf is None:
+            if re.match(r'^<< "[A-Z]+",\s*$', line) or (line.startswith('<< "') and _balance(line) > 0):
+                buf, depth = [line.strip()], _balance(line)
+                continue
+            out.append(line)
+        else:
+            buf.append(line.strip())
+            depth += _balance(line)
+            if depth <= 0:
+                joined = ' '.join(buf)
+                joined = re.sub(r'^<< "', '<<"', joined)
+                joined = re.sub(r'\s*>>$', '>>', joined)
+                out.append(joined)
+                buf = None
+    if buf:
+        out.append(' '.join(buf))
+    return out
+
+
+def _balance(line):
+    d, instr, esc = 0, False, False
+    i = 0
+    while i < len(line):
+        ch = line[i]
+        if instr:
+            if esc:
+                esc = False
+            elif ch == '\\':
+                esc = True
+            elif ch == '"':
+                instr = False
+        elif ch == '"':
+            instr = True
+        elif line.startswith('<<', i):
+            d += 1
+            i += 1
+        elif line.startswith('>>', i):
+            d -= 1
+            i += 1
+        i += 1
+    return d
 
 
 def sany(module, specs_dir=None):
